@@ -37,6 +37,14 @@ var c21Alphabet = []c21Op{
 	"restart",
 }
 
+// core alphabet for one more level of full enumeration (thorough)
+var c21CoreAlphabet = []c21Op{
+	"put(a,v1)", "put(a,E)", "put(ab,v1)", "del(a)",
+	"app(a,x)", "app(c,x)", "rem(a,x)",
+	"imp1", "imp2", "rmk(a)", "rmk(a,c)",
+	"restart",
+}
+
 // multi-segment variant: 1.1 MB values make the 2 MB log segment roll after two puts, so
 // the next entry (possibly a rejected append that is rolled back) opens a new segment.
 var c21BigAlphabet = []c21Op{
@@ -64,11 +72,6 @@ func parseOp(o c21Op) (name string, args []string) {
 		return s, nil
 	}
 	return s[:i], strings.Split(s[i+1:len(s)-1], ",")
-}
-
-type c21Store struct {
-	dir string
-	kv  *aof.DiskKV
 }
 
 func c21Open(dir string, hash hashMode) (*aof.DiskKV, error) {
@@ -289,9 +292,11 @@ type c21Fail struct {
 
 func c21(c *report.Check) {
 	defer scratchCleanup()
-	depth, bfsDepth, bigDepth := 4, 6, 5
+	// depth: full enumeration over the whole alphabet (degenerate hash; chord.Hash one less in quick);
+	// coreDepth: additional length over the core alphabet; bfsDepth; bigDepth: multi-segment variant
+	depth, coreDepth, bfsDepth, bigDepth := 3, 4, 5, 4
 	if c.Thorough() {
-		depth, bfsDepth, bigDepth = 5, 8, 6
+		depth, coreDepth, bfsDepth, bigDepth = 4, 5, 8, 5
 	}
 	nw := numWorkers()
 	dist := report.NewDistinct(8)
@@ -418,8 +423,14 @@ func c21(c *report.Check) {
 
 	for _, hm := range hashModes {
 		// ---- 1. all histories of every length 1..depth
-		for L := 1; L <= depth; L++ {
+		d := depth
+		for L := 1; L <= d; L++ {
 			enumerate(hm, "small", c21Alphabet, L)
+		}
+		if hm.Name == "deg" && coreDepth > d {
+			for L := d + 1; L <= coreDepth; L++ {
+				enumerate(hm, "small", c21CoreAlphabet, L)
+			}
 		}
 		// ---- 2. BFS to bfsDepth, de-duplicated on (content incl. nil/empty, listings, lease tokens; restarts used)
 		type st struct{ path []c21Op }
@@ -476,10 +487,12 @@ func c21(c *report.Check) {
 			frontier = next
 		}
 		// ---- 3. multi-segment variant
-		if hm.Name == "deg" || c.Thorough() {
-			for L := 1; L <= bigDepth; L++ {
-				enumerate(hm, "multiseg", c21BigAlphabet, L)
-			}
+		bd := bigDepth
+		if hm.Name != "deg" {
+			bd--
+		}
+		for L := 1; L <= bd; L++ {
+			enumerate(hm, "multiseg", c21BigAlphabet, L)
 		}
 	}
 	for _, m := range internal {
@@ -501,7 +514,8 @@ func c21(c *report.Check) {
 	c.Set("exhaustive", true)
 	c.Set("alphabet", opStrs(c21Alphabet))
 	c.Set("alphabet_multisegment", opStrs(c21BigAlphabet))
-	c.Set("rule", fmt.Sprintf("for each hash function {degenerate, chord.Hash}: every history of length 1..%d over the %d-event alphabet (mutations incl. duplicate appends that are rejected and rolled back, two imports with overlapping keys, three key removals, and restart; at most 3 restarts inside a history) on a fresh directory, followed by a final restart; at every restart Get and PrefixList of a,ab,c before Stop are compared with the same after aof.New on the same directory; BFS to depth %d de-duplicated on (content incl. nil/empty distinction, listings, lease tokens, restarts used); multi-segment variant: every history of length 1..%d over %d events with 1.1 MB values (2 MB segments); class = (variant, set of event kinds, rejected mutation present, several segments)", depth, len(c21Alphabet), bfsDepth, bigDepth, len(c21BigAlphabet)))
+	c.Set("alphabet_core", opStrs(c21CoreAlphabet))
+	c.Set("rule", fmt.Sprintf("degenerate hash (a,ab collide): every history of length 1..%d over the %d-event alphabet (mutations incl. duplicate appends that are rejected and rolled back, two imports with overlapping keys, three key removals, and restart; at most 3 restarts inside a history) and of length up to %d over the %d-event core alphabet, each on a fresh directory and followed by a final restart; chord.Hash: the full alphabet to length %d; at every restart Get and PrefixList of a,ab,c before Stop are compared with the same after aof.New on the same directory; both hashes: BFS to depth %d de-duplicated on (content incl. nil/empty distinction, listings, lease tokens, restarts used); multi-segment variant: every history of length 1..%d (chord.Hash: one less) over %d events with 1.1 MB values (2 MB segments); class = (variant, set of event kinds, rejected mutation present, several segments)", depth, len(c21Alphabet), coreDepth, len(c21CoreAlphabet), depth, bfsDepth, bigDepth, len(c21BigAlphabet)))
 	c.Assume("clean stop = DiskKV.Stop() (flush + close) with no mutation in flight; crash points are C20/C22",
 		"simple values compared with empty == absent (C16): Put(k, []byte{}) reads back as an empty non-nil value before the stop and as nil afterwards, which the statement treats as equal; listings and lease tokens before/after are recorded (restarts_where_listings_or_lease_tokens_differed) but are not part of the statement",
 		"a failing history is minimised by greedy event removal and reported once per minimal history and divergence class")
